@@ -34,6 +34,7 @@ CONSTANTS
   MaxOps,               \* bound on the length of a behaviour (history)
   MaxRej,               \* bound on the number of rejected calls in a behaviour
   CoreVacuum,           \* TRUE: offer direct core-level graph vacuum with arbitrary cutoffs and no restarts
+  Seeded,               \* TRUE: behaviours start with index GName created and every id of Ids added
   GName,                \* the index whose namespace the modelled graph lives in
   Devs                  \* named deviations of the pinned code that this run models (see known_findings.json)
 
@@ -89,9 +90,10 @@ VARIABLES
   file,     \* Seq(Cmd) : the command log (kektordb.aof) as Close would leave it
   clock,    \* logical time for edge timestamps (strictly increasing per graph op)
   ops,      \* history: the operations performed so far (with results)
-  dev       \* set of named deviations exercised by this behaviour
+  dev,      \* set of named deviations exercised by this behaviour
+  delat     \* [GNodes -> time of the node's last VDelete, 0 if none or re-added since] (ground truth for C12)
 
-vars == <<mem, snap, file, clock, ops, dev>>
+vars == <<mem, snap, file, clock, ops, dev, delat>>
 
 Exists(n) == mem.ix[n].cfg # Nil
 Live(ix, id) == ix.e2i[id] # 0 /\ ix.nodes[ix.e2i[id]].st = "live"
@@ -349,13 +351,13 @@ KVSet(k, v) ==
   /\ mem' = [mem EXCEPT !.kv[k] = v]
   /\ Journal(<<CSet(k, v)>>)
   /\ Log([op |-> "KVSet", k |-> k, v |-> v, res |-> "ok"])
-  /\ UNCHANGED <<snap, clock, dev>>
+  /\ UNCHANGED <<snap, clock, dev, delat>>
 
 KVDelete(k) ==
   /\ mem' = [mem EXCEPT !.kv[k] = Nil]
   /\ Journal(<<CDel(k)>>)
   /\ Log([op |-> "KVDelete", k |-> k, res |-> "ok"])
-  /\ UNCHANGED <<snap, clock, dev>>
+  /\ UNCHANGED <<snap, clock, dev, delat>>
 
 \* VCreate journals VCREATE before CreateVectorIndex validates (harmless: replay ignores a
 \* VCREATE for a name it already knows); VCONFIG only after success.
@@ -367,14 +369,13 @@ VCreate(n, cfg, mc, al) ==
      ELSE /\ Journal(<<CCreate(n, cfg, al)>> \o (IF mc # Nil THEN <<CConfig(n, mc)>> ELSE <<>>))
           /\ SetIx(n, NewIndex(cfg, mc, al))
           /\ Log([op |-> "VCreate", n |-> n, cfg |-> cfg, mc |-> mc, al |-> al, res |-> "ok"])
-  /\ UNCHANGED <<snap, clock, dev>>
+  /\ UNCHANGED <<snap, clock, dev, delat>>
 
 VDeleteIndex(n) ==
-  /\ Journal(<<CDrop(n)>>)
   /\ IF Exists(n)
-     THEN SetIx(n, NoIndex) /\ Log([op |-> "VDeleteIndex", n |-> n, res |-> "ok"])
-     ELSE UNCHANGED mem /\ Log([op |-> "VDeleteIndex", n |-> n, res |-> "err"])
-  /\ UNCHANGED <<snap, clock, dev>>
+     THEN Journal(<<CDrop(n)>>) /\ SetIx(n, NoIndex) /\ Log([op |-> "VDeleteIndex", n |-> n, res |-> "ok"])
+     ELSE UNCHANGED <<mem, file>> /\ Log([op |-> "VDeleteIndex", n |-> n, res |-> "err"])
+  /\ UNCHANGED <<snap, clock, dev, delat>>
 
 \* metadata actually stored by VAdd: memory-enabled indexes stamp _created_at
 StampMeta(ix, m) == IF CfgMem[ix.cfg] THEN [m EXCEPT !["_created_at"] = "T"] ELSE m
@@ -394,6 +395,7 @@ VAdd(n, id, vec, um) ==
           /\ Journal(<<CAdd(n, id, vec, m)>>)
           /\ Log(rec @@ [res |-> "ok"])
   /\ dev' = IF Exists(n) /\ Live(ix, id) /\ Dev("journal_before_validate") THEN dev \cup {"journal_before_validate"} ELSE dev
+  /\ delat' = IF Exists(n) /\ ~Live(ix, id) /\ GId(n, id) \in GNodes THEN [delat EXCEPT ![GId(n, id)] = 0] ELSE delat
   /\ UNCHANGED <<snap, clock>>
 
 \* VAddBatch of two items (ids may coincide, may already exist): all-or-nothing
@@ -410,19 +412,36 @@ VAddBatch(n, id1, v1, id2, v2, um) ==
           /\ SetIx(n, IxAdd(IxAdd(ix, id1, v1, m), id2, v2, m))
           /\ Journal(<<CAdd(n, id1, v1, m), CAdd(n, id2, v2, m)>>)
           /\ Log(rec @@ [res |-> "ok"])
+  /\ delat' = IF Exists(n) /\ ~bad
+              THEN [x \in GNodes |-> IF x \in {GId(n, id1), GId(n, id2)} THEN 0 ELSE delat[x]] ELSE delat
   /\ UNCHANGED <<snap, clock, dev>>
 
 VDelete(n, id) ==
   LET ix == mem.ix[n]
       rec == [op |-> "VDelete", n |-> n, id |-> id] IN
   /\ IF ~Exists(n) \/ ~Live(ix, id)
-     THEN UNCHANGED <<mem, file, clock>> /\ Log(rec @@ [res |-> "err"])
+     THEN UNCHANGED <<mem, file, clock, delat>> /\ Log(rec @@ [res |-> "err"])
      ELSE LET ts == clock + 1
               g1 == Cascade(G(mem), GId(n, id), ts) IN
           /\ clock' = ts
           /\ mem' = [mem EXCEPT !.ix[n] = IxDelete(ix, id), !.out = g1.out, !.in = g1.in]
           /\ Journal(<<CVDel(n, id, ts)>>)
+          /\ delat' = IF GId(n, id) \in GNodes THEN [delat EXCEPT ![GId(n, id)] = ts] ELSE delat
           /\ Log(rec @@ [res |-> "ok"])
+  /\ UNCHANGED <<snap, dev>>
+
+\* VDelete whose background cascade is cut short by a shutdown before it unlinked anything,
+\* followed by the restart: the replay of VDEL must do the cascade's work.
+VDeleteCut(n, id) ==
+  LET ix == mem.ix[n]
+      ts == clock + 1 IN
+  /\ ~CoreVacuum
+  /\ Exists(n) /\ Live(ix, id)
+  /\ clock' = ts
+  /\ file' = file \o <<CVDel(n, id, ts)>>
+  /\ mem' = Recover(snap, file')
+  /\ delat' = IF GId(n, id) \in GNodes THEN [delat EXCEPT ![GId(n, id)] = ts] ELSE delat
+  /\ Log([op |-> "VDeleteCut", n |-> n, id |-> id, res |-> "ok"])
   /\ UNCHANGED <<snap, dev>>
 
 VSetMetadata(n, id, k, v) ==
@@ -434,7 +453,7 @@ VSetMetadata(n, id, k, v) ==
           /\ SetIx(n, IxSetMeta(ix, id, m))
           /\ Journal(<<CMeta(n, id, m)>>)
           /\ Log(rec @@ [res |-> "ok"])
-  /\ UNCHANGED <<snap, clock, dev>>
+  /\ UNCHANGED <<snap, clock, dev, delat>>
 
 \* VReinforce on one id: unknown ids are skipped silently (nil error)
 VReinforce(n, id) ==
@@ -452,7 +471,7 @@ VReinforce(n, id) ==
           /\ SetIx(n, IxSetMeta(ix, id, m))
           /\ Journal(<<CMeta(n, id, m)>>)
           /\ Log(rec @@ [res |-> "ok"])
-  /\ UNCHANGED <<snap, clock, dev>>
+  /\ UNCHANGED <<snap, clock, dev, delat>>
 
 VUpdateIndexConfig(n, mc) ==
   /\ IF ~Exists(n)
@@ -460,7 +479,7 @@ VUpdateIndexConfig(n, mc) ==
      ELSE /\ SetIx(n, [mem.ix[n] EXCEPT !.maint = mc])
           /\ Journal(<<CConfig(n, mc)>>)
           /\ Log([op |-> "VUpdateIndexConfig", n |-> n, mc |-> mc, res |-> "ok"])
-  /\ UNCHANGED <<snap, clock, dev>>
+  /\ UNCHANGED <<snap, clock, dev, delat>>
 
 VUpdateAutoLinks(n, al) ==
   /\ IF ~Exists(n)
@@ -468,19 +487,19 @@ VUpdateAutoLinks(n, al) ==
      ELSE /\ SetIx(n, [mem.ix[n] EXCEPT !.al = al])
           /\ Journal(<<CAutoLinks(n, al)>>)
           /\ Log([op |-> "VUpdateAutoLinks", n |-> n, al |-> al, res |-> "ok"])
-  /\ UNCHANGED <<snap, clock, dev>>
+  /\ UNCHANGED <<snap, clock, dev, delat>>
 
 \* VTriggerMaintenance(n, "vacuum") / "refine": no observable change
 Vacuum(n) ==
   /\ Exists(n)
   /\ SetIx(n, IxVacuum(mem.ix[n]))
   /\ Log([op |-> "Vacuum", n |-> n, res |-> "ok"])
-  /\ UNCHANGED <<snap, file, clock, dev>>
+  /\ UNCHANGED <<snap, file, clock, dev, delat>>
 
 Refine(n) ==
   /\ Exists(n)
   /\ Log([op |-> "Refine", n |-> n, res |-> "ok"])
-  /\ UNCHANGED <<mem, snap, file, clock, dev>>
+  /\ UNCHANGED <<mem, snap, file, clock, dev, delat>>
 
 \* VCompress: only float32 indexes with at least one vector; the target must be a valid
 \* precision for the index metric.  A rejected call leaves the index untouched.
@@ -495,7 +514,7 @@ VCompress(n, p) ==
           /\ snap' = <<mem'>>
           /\ file' = <<>>
           /\ Log(rec @@ [res |-> "ok"])
-  /\ UNCHANGED <<clock, dev>>
+  /\ UNCHANGED <<clock, dev, delat>>
 
 \* ------------------------------ graph ------------------------------------
 VLink(s, t, r, inv, w, p) ==
@@ -505,7 +524,7 @@ VLink(s, t, r, inv, w, p) ==
   /\ mem' = [mem EXCEPT !.out = g1.out, !.in = g1.in]
   /\ Journal(<<CLink(s, t, r, inv, w, p, ts)>>)
   /\ Log([op |-> "VLink", s |-> s, t |-> t, r |-> r, inv |-> inv, w |-> w, p |-> p, res |-> "ok"])
-  /\ UNCHANGED <<snap, dev>>
+  /\ UNCHANGED <<snap, dev, delat>>
 
 VUnlink(s, t, r, inv, hard) ==
   LET ts == clock + 1
@@ -514,7 +533,7 @@ VUnlink(s, t, r, inv, hard) ==
   /\ mem' = [mem EXCEPT !.out = g1.out, !.in = g1.in]
   /\ Journal(<<CUnlink(s, t, r, inv, hard, ts)>>)
   /\ Log([op |-> "VUnlink", s |-> s, t |-> t, r |-> r, inv |-> inv, hard |-> hard, res |-> "ok"])
-  /\ UNCHANGED <<snap, dev>>
+  /\ UNCHANGED <<snap, dev, delat>>
 
 \* Engine.RunGraphVacuum: the retention comes from the first index whose maintenance config
 \* sets one (token "mc2": 1ns), i.e. everything soft-deleted so far is pruned. Journaled (GVACUUM).
@@ -524,7 +543,7 @@ GraphVacuum ==
   /\ mem' = [mem EXCEPT !.out = g1.out, !.in = g1.in]
   /\ Journal(<<CGVacuum(clock)>>)
   /\ Log([op |-> "GraphVacuum", res |-> "ok"])
-  /\ UNCHANGED <<snap, clock, dev>>
+  /\ UNCHANGED <<snap, clock, dev, delat>>
 
 \* core.DB.VacuumGraph(cutoff) called directly with an arbitrary horizon (not an engine call, not
 \* journaled): only offered in profiles without restarts (CoreVacuum = TRUE)
@@ -534,29 +553,42 @@ GraphVacuumAt(cutoff) ==
   /\ cutoff \in 1..clock
   /\ mem' = [mem EXCEPT !.out = g1.out, !.in = g1.in]
   /\ Log([op |-> "GraphVacuumAt", cutoff |-> cutoff, res |-> "ok"])
-  /\ UNCHANGED <<snap, file, clock, dev>>
+  /\ UNCHANGED <<snap, file, clock, dev, delat>>
 
 \* ------------------------------ admin ------------------------------------
 SaveSnapshot ==
   /\ snap' = <<mem>>
   /\ file' = <<>>
   /\ Log([op |-> "SaveSnapshot", res |-> "ok"])
-  /\ UNCHANGED <<mem, clock, dev>>
+  /\ UNCHANGED <<mem, clock, dev, delat>>
 
 RewriteAOF ==
   /\ file' = IF Dev("rewrite_keeps_snapshot") THEN Tail(Emit(mem)) ELSE Emit(mem)
   /\ Log([op |-> "RewriteAOF", res |-> "ok"])
   /\ dev' = IF Dev("rewrite_keeps_snapshot") /\ snap # <<>> THEN dev \cup {"rewrite_keeps_snapshot"} ELSE dev
-  /\ UNCHANGED <<mem, snap, clock>>
+  /\ UNCHANGED <<mem, snap, clock, delat>>
 
 Reopen ==
   /\ ~CoreVacuum
   /\ mem' = Recover(snap, file)
   /\ Log([op |-> "Reopen", res |-> "ok"])
-  /\ UNCHANGED <<snap, file, clock, dev>>
+  /\ UNCHANGED <<snap, file, clock, dev, delat>>
+
+\* seeded start: index GName exists (first configuration of Cfgs) and holds every id
+SeedCfg == CHOOSE c \in Cfgs : TRUE
+SeedVec == CHOOSE v \in Vecs : TRUE
+SeedIds == SetToSeq(Ids)
+SeedIx == FoldLeft(LAMBDA ix, id : IxAdd(ix, id, SeedVec, NoMeta), NewIndex(SeedCfg, Nil, Nil), SeedIds)
+SeedOps == <<[op |-> "VCreate", n |-> GName, cfg |-> SeedCfg, mc |-> Nil, al |-> Nil, res |-> "ok"]>>
+           \o [j \in 1..Len(SeedIds) |-> [op |-> "VAdd", n |-> GName, id |-> SeedIds[j], vec |-> SeedVec,
+                                             meta |-> [k \in MKeys |-> Nil], res |-> "ok"]]
+SeedFile == <<CCreate(GName, SeedCfg, Nil)>> \o [j \in 1..Len(SeedIds) |-> CAdd(GName, SeedIds[j], SeedVec, NoMeta)]
 
 Init ==
-  /\ mem = EmptyMem /\ snap = <<>> /\ file = <<>> /\ clock = 0 /\ ops = <<>> /\ dev = {}
+  /\ snap = <<>> /\ clock = 0 /\ dev = {} /\ delat = [x \in GNodes |-> 0]
+  /\ IF Seeded
+     THEN mem = [EmptyMem EXCEPT !.ix[GName] = SeedIx] /\ file = SeedFile /\ ops = SeedOps
+     ELSE mem = EmptyMem /\ file = <<>> /\ ops = <<>>
 
 Next ==
   \/ \E k \in Keys, v \in KVals : KVSet(k, v)
@@ -566,6 +598,7 @@ Next ==
   \/ \E n \in Names, id \in Ids, v \in Vecs, um \in UserMetas : VAdd(n, id, v, um)
   \/ \E n \in Names, id1, id2 \in Ids, v1, v2 \in Vecs, um \in UserMetas : VAddBatch(n, id1, v1, id2, v2, um)
   \/ \E n \in Names, id \in Ids : VDelete(n, id)
+  \/ \E n \in Names, id \in Ids : VDeleteCut(n, id)
   \/ \E n \in Names, id \in Ids, k \in MKeys, v \in MVals : VSetMetadata(n, id, k, v)
   \/ \E n \in Names, id \in Ids : VReinforce(n, id)
   \/ \E n \in Names, mc \in Maints : VUpdateIndexConfig(n, mc)
@@ -619,6 +652,18 @@ Inv_FwdRevAgree == OutView(0) = InView(0) /\ \A T \in 1..clock : OutView(T) \sub
 \* C10: at most one active version per (s,t,r)
 Inv_OneActive == \A e1, e2 \in mem.out : (e1.s = e2.s /\ e1.t = e2.t /\ e1.r = e2.r /\ e1.d = 0 /\ e2.d = 0) => e1 = e2
 
+\* C12: once a node is deleted (and its cascade has settled) no active edge created before the
+\* deletion touches it, in either direction, in either view
+Inv_NoEdgeToDead ==
+  \A x \in GNodes : delat[x] > 0 =>
+     /\ \A e \in mem.out : (e.d = 0 /\ (e.s = x \/ e.t = x)) => e.c > delat[x]
+     /\ \A e \in mem.in  : (e.d = 0 /\ (e.s = x \/ e.t = x)) => e.c > delat[x]
+\* C12: a delete leaves the edges among other nodes untouched
+Prop_DeleteTouchesOnlyIncident ==
+  [][ (Len(ops') = Len(ops) + 1 /\ ops'[Len(ops')].op \in {"VDelete", "VDeleteCut"} /\ ops'[Len(ops')].res = "ok")
+        => LET x == GId(ops'[Len(ops')].n, ops'[Len(ops')].id) IN
+           {e \in mem.out : e.s # x /\ e.t # x} = {e \in mem'.out : e.s # x /\ e.t # x} ]_vars
+
 \* C05: a rejected call changes nothing (action property)
 LastRes == IF ops = <<>> THEN "ok" ELSE ops[Len(ops)].res
 Prop_RejectedNoChange == [][ (Len(ops') = Len(ops) + 1 /\ ops'[Len(ops')].res = "err") => Obs(mem') = Obs(mem) ]_vars
@@ -634,12 +679,12 @@ Prop_ReopenIdentity ==
 (* Model-checking plumbing: bounds, the view, and the corpus channel.      *)
 (***************************************************************************)
 Bound == /\ Len(file) <= MaxFile
-         /\ Len(ops) <= MaxOps
+         /\ Len(ops) <= MaxOps + (IF Seeded THEN Len(SeedOps) ELSE 0)
          /\ Cardinality({i \in 1..Len(ops) : ops[i].res = "err"}) <= MaxRej
          /\ \A e \in mem.out : Cardinality({x \in mem.out : x.s = e.s /\ x.t = e.t /\ x.r = e.r}) <= MaxVer
 
 \* the history is not part of the state identity
-View == <<mem, snap, file, clock, dev>>
+View == <<mem, snap, file, clock, dev, delat>>
 
 \* corpus channel: one JSON line per expanded state = the behaviour that reached it first
 \* plus the projection the implementation must show after it
